@@ -24,7 +24,8 @@ RULE = ('case = a fresh directory holding 1-4 include targets and an including c
         'with selector). Non-trivial = >= 2 include lines or a tab selector; distinct by generating seed.'
         " The cart lives in a scratch directory, directly in ~/.lexaloffle/pico-8/carts (HOME redirected) or in a game folder below it (include names stay relative to the cart's own directory; same-named decoy files sit in the carts directory)."
         ' An eighth of the cart targets use 14-18 editor tabs, with selectors at the last tabs and one past them.'
-        ' Cart targets without code may lack the __lua__ section altogether (two fixed specs and random ones); string statements of targets may hold P8SCII bytes that are well-formed UTF-8.')
+        ' Cart targets without code may lack the __lua__ section altogether (two fixed specs and random ones); string statements of targets may hold P8SCII bytes that are well-formed UTF-8.'
+        ' .lua targets may contain a bare CR inside a long string / comment; near-separator lines include indented -->8.')
 ASSUMPTIONS = [
     'tab numbering is the one picotool documents (lines_for_tab, game_test.py): tab 0 is the code before the first '
     'line starting with `-->8`, tab n the lines after the n-th and before the (n+1)-th such line; the separator '
